@@ -36,7 +36,7 @@ THEOREMS = ["Ymq.C19Wied." + t for t in (
     "krylov_recurrence detp4_spec_full_complexity detp4_false_zero_iff_deficient mulp_spec mulp_overflow_witness "
     "detp4_lane_of_model detp4_lane_of_norm detz_of_detp_partial detz_early_termination_witness "
     "isprime64_isprimeSound select_crtprimes_spec select_crtprimes_zero_norm detz_of_detp_selected_partial "
-    "mkMat_valid ker_p256_sound ker_p256_none_iff ker_p256_panics detz_early_termination_witness_closed").split()]
+    "mkMat_valid ker_p256_sound ker_p256_none_iff ker_p256_panics detz_early_termination_witness_closed ker_p256_singular").split()]
 
 # nonsingular matrices on which detz returns a wrong value because the CRT loop stops at the first repeated value
 WITNESS_ZERO = "im_det_sparse 0:21,1:-1;0:5461,1:16384,2:-1;0:5461,2:16384,3:-1;0:4926,3:16384,4:-1;0:8192,4:16384,5:-1;5:16384,6:-1;0:4645,6:16384,7:-1;0:-2432,7:16384,8:-1;0:-1,8:16384,9:-1;0:535,9:16384,10:-1;0:-1832,10:16384,11:-1;0:684,11:16384,12:-1;0:-5528,12:16384,13:-1;0:-5929,13:16384,14:-1;0:6260,14:16384"       # 15x15, det = 108 * p0*p1*p2*p3 (201 bits): detz = 0 after ONE block
